@@ -23,7 +23,7 @@ RUN = "vf.checks.c15:run_one"
 TEXTS = ["plain", "\u00e9\u20ac\U0001F600", "line\nbreak\u2028\u0085\ttab", "nul\x00q\"b\\s"]
 HELPERS = ["initialize", "tools/list", "tools/call", "resources/read", "prompts/get", "ping"]
 ERRORS = [-32601, -32000, -32602]
-CARRIERS = ["stdio", "http-json", "http-sse", "legacy-sse"]
+CARRIERS = ["stdio", "http-json", "http-sse", "legacy-sse", "legacy-sse-event-first"]
 
 
 def result_for(helper: str, text: str) -> Dict[str, Any]:
@@ -171,11 +171,16 @@ def run_carrier(carrier: str, steps: List[dict]) -> Dict[str, Any]:
                 stream = ScriptedStream()
                 stream.feed(b"event: endpoint\ndata: /messages/?session_id=abc\n\n")
 
-                def handler(rec):
+                async def handler(rec):
                     if rec.method == "GET":
                         return httpx.Response(200, headers={"content-type": "text/event-stream"}, stream=stream)
                     for m in script.answer(rec.json()):
                         stream.feed(("event: message\ndata: " + json.dumps(m, ensure_ascii=False) + "\n\n").encode("utf-8"))
+                    if carrier == "legacy-sse-event-first":
+                        # let the event stream reader see the events before the POST's 202 comes back
+                        import asyncio as _a
+                        for _ in range(8):
+                            await _a.sleep(0)
                     return httpx.Response(202)
 
                 with patched_httpx(handler):
@@ -294,13 +299,13 @@ def run(tier: str, only=None) -> core.Result:
         cfgs += [{"steps": [a, b, c]} for a in red for b in red for c in red]
     out = explorer.explore(RUN, cfgs)
     sched.absorb(res, "conversations", RUN, out, cfgs)
-    res.coverage["carrier_runs"] = res.coverage["evaluations"] * 4
+    res.coverage["carrier_runs"] = res.coverage["evaluations"] * len(CARRIERS)
     res.coverage["exhaustive"] = True
     res.coverage["rule"] = (
         f"conversation grammar: step = helper in {HELPERS} x 0/1/3 server notifications before the answer x (result with one of "
         f"{len(TEXTS)} Unicode texts and nested nulls | error code in {ERRORS}); all single-step conversations over the full step set "
         "(126) and all 2-step conversations over it (thorough: plus all 3-step conversations over a reduced set of 24 steps); each conversation run through stdio, Streamable HTTP with SSE body, legacy SSE and (when it has no notifications) "
-        "Streamable HTTP with JSON body; distinct = distinct observation digests"
+        "Streamable HTTP with JSON body; legacy SSE in both orders of (202 acknowledgement, answer event); distinct = distinct observation digests"
     )
     res.assumptions = [
         "each carrier is fed its canonical encoding in whole-line / whole-event chunks (framing and encoding variants are decided by C05, C11, C12)",
